@@ -37,15 +37,21 @@ TReset(e) ==
   /\ op' = Op("init", "", 0, NoPayload, 0, NoItem, FALSE)
   /\ dead' = FALSE
 
+\* aux = 2 on a `set` record: the call panicked
 TSet(e) ==
-  /\ e.size <= Limit
-  /\ \E now \in e.lo..e.hi :
-       /\ clock' = now
-       /\ LET s == SetRes(entries, total, e.route, e.host, P(e), now)
-          IN  entries' = s[1] /\ total' = s[2]
-       /\ last' = [last EXCEPT ![<<e.route, e.host>>] = Hit(P(e), now)]
-  /\ op' = Op("set", e.route, e.host, P(e), 0, NoItem, FALSE)
-  /\ dead' = FALSE
+  IF (e.aux = 2) = SetRes(entries, total, e.route, e.host, P(e), e.lo)[3]
+  THEN /\ \E now \in e.lo..e.hi :
+            /\ clock' = now
+            /\ LET s == SetRes(entries, total, e.route, e.host, P(e), now)
+               IN  /\ entries' = s[1] /\ total' = s[2]
+                   /\ last' = IF s[3] THEN last ELSE [last EXCEPT ![<<e.route, e.host>>] = Hit(P(e), now)]
+                   /\ op' = Op("set", e.route, e.host, P(e), 0, NoItem, s[3])
+       /\ dead' = FALSE
+  ELSE /\ PrintT(ToJson([mismatch_at |-> l, event |-> e,
+                         model_predicts |-> {[hit |-> FALSE, size |-> 0, id |-> 0, mime |-> IF e.aux = 2 THEN "no panic" ELSE "panic", t |-> 0]},
+                         model_entries |-> entries]))
+       /\ dead' = TRUE
+       /\ UNCHANGED <<entries, total, clock, last, op>>
 
 \* the times at which the model explains the observed lookup (aux = 1: the returned item carried
 \* another key than the one asked for)
